@@ -33,7 +33,24 @@ def twice(obs, n_inputs, limit=3):
 
 def run(ops, chunks):
     chunks = list(chunks)
-    return twice(rx.from_(chunks).pipe(*ops), len(chunks))
+    sink = twice(rx.from_(chunks).pipe(*ops), len(chunks))
+    if len(chunks) <= 3 and sink.error is None:
+        # two subscribers of the same observable at the same time (a hot source): each gets what a lone subscriber gets
+        from rx.subject import Subject
+        src = Subject()
+        obs = src.pipe(*ops)
+        a, b = RawSink(), RawSink()
+        a.subscribe_to(obs)
+        b.subscribe_to(obs)
+        for c in chunks:
+            src.on_next(c)
+        src.on_completed()
+        for name, s in (('first', a), ('second', b)):
+            if repr(s.items) != repr(sink.items) or s.completed != sink.completed or s.error is not None:
+                sink.error = SecondSubscriptionDiffers('two overlapping subscriptions: the %s one got %r completed=%r error=%r; a lone subscriber gets %r' % (
+                    name, s.items[:6], s.completed, s.error, sink.items[:6]))
+                break
+    return sink
 
 
 def with_empty_chunks(chunks, empty, mode):
